@@ -938,6 +938,8 @@ def check(ctx):
     check_multi(ctx, torch, nn, Hedger)
     check_fit_steps(ctx, torch, nn, Hedger)
     check_grad_mode(ctx, torch, nn, Hedger)
+    import ext_gradmode
+    ext_gradmode.run(ctx, ctx.gen.__class__(f"{ctx.seed}:ext_gradmode"))     # the switch over histories of calls (Model/GradMode, op grad_mode)
     # ---------------- evaluation-only quantities carry no graph; ensembles (n_times >= 2) have the gradient of their mean
     from pfhedge.instruments import BrownianStock, HestonStock, EuropeanOption, LookbackOption
     from pfhedge.nn.modules.loss import OCE
